@@ -1,6 +1,8 @@
 package vm
 
 import (
+	"math"
+
 	"github.com/elk-language/elk/value"
 	"github.com/elk-language/elk/value/symbol"
 )
@@ -48,40 +50,90 @@ func initTuple() {
 
 			length := lengthVal.AsInt()
 
-			var start int
-			end := lengthVal.AsInt() - 1
+			// bounds of the range and whether each of them is excluded
+			var startVal, endVal value.Value
+			var startExcluded, endExcluded bool
 
 			switch r := rangeVal.(type) {
 			case *value.ClosedRange:
-				start = r.Start.AsInt()
-				end = r.End.AsInt()
+				startVal, endVal = r.Start, r.End
 			case *value.LeftOpenRange:
-				start = r.Start.AsInt() + 1
-				end = r.End.AsInt()
+				startVal, endVal = r.Start, r.End
+				startExcluded = true
 			case *value.RightOpenRange:
-				start = r.Start.AsInt()
-				end = r.End.AsInt() - 1
+				startVal, endVal = r.Start, r.End
+				endExcluded = true
 			case *value.OpenRange:
-				start = r.Start.AsInt() + 1
-				end = r.End.AsInt() - 1
+				startVal, endVal = r.Start, r.End
+				startExcluded, endExcluded = true, true
 			case *value.BeginlessOpenRange:
-				end = r.End.AsInt() - 1
+				endVal = r.End
+				endExcluded = true
 			case *value.BeginlessClosedRange:
-				end = r.End.AsInt()
+				endVal = r.End
 			case *value.EndlessOpenRange:
-				start = r.Start.AsInt() + 1
+				startVal = r.Start
+				startExcluded = true
 			case *value.EndlessClosedRange:
-				start = r.Start.AsInt()
+				startVal = r.Start
 			}
 
-			start, err = value.NormalizeArrayIndex(start, length)
-			if err.IsNotUndefined() {
-				return value.Undefined, err
+			start := 0
+			end := length - 1
+			hasStart := !startVal.IsUndefined()
+			hasEnd := !endVal.IsUndefined()
+			if hasStart {
+				var ok bool
+				start, ok = value.IntToGoInt(startVal)
+				if !ok {
+					return value.Undefined, value.Ref(value.NewIndexOutOfRangeError(startVal.Inspect(), length))
+				}
+			}
+			if hasEnd {
+				var ok bool
+				end, ok = value.IntToGoInt(endVal)
+				if !ok {
+					return value.Undefined, value.Ref(value.NewIndexOutOfRangeError(endVal.Inspect(), length))
+				}
 			}
 
-			end, err = value.NormalizeArrayIndex(end, length)
-			if err.IsNotUndefined() {
-				return value.Undefined, err
+			// Negative bounds count from the end. They are resolved
+			// before the excluded bounds are stepped over, so that
+			// `..<0` ends before the first element and `-1<..` starts
+			// after the last one.
+			if hasStart {
+				if start < 0 {
+					start += length
+				}
+				if startExcluded {
+					if start == math.MaxInt {
+						return value.Ref(&value.ArrayTupleOfValue{}), value.Undefined
+					}
+					start++
+				}
+			}
+			if hasEnd {
+				if end < 0 {
+					end += length
+				}
+				if endExcluded {
+					if end == math.MinInt {
+						return value.Ref(&value.ArrayTupleOfValue{}), value.Undefined
+					}
+					end--
+				}
+			}
+
+			// the range selects no index
+			if start > end {
+				return value.Ref(&value.ArrayTupleOfValue{}), value.Undefined
+			}
+
+			if start < 0 || start >= length {
+				return value.Undefined, value.Ref(value.NewIndexOutOfRangeError(startVal.Inspect(), length))
+			}
+			if end < 0 || end >= length {
+				return value.Undefined, value.Ref(value.NewIndexOutOfRangeError(endVal.Inspect(), length))
 			}
 
 			var result value.ArrayTupleOfValue
